@@ -315,6 +315,38 @@ func RunC09(cfg Config) *report.Report {
 		}
 	}))
 
+	// operator-alphabet family: every character an operator may consist of,
+	// right after the two built-in one-character operators '.' and '?' (the
+	// place where "not split out of a longer operator" is decided), as a
+	// registered operator and as an unregistered sequence
+	{
+		alpha := []rune(":!#$%^&*+./<=>?@\\ˆ|~-")
+		mergeCounts(counts, parallel(r, distinct, len(alpha), func(i int, c *chunk) {
+			ch := string(alpha[i])
+			for _, lead := range []string{".", "?"} {
+				var names []string
+				for _, n := range []string{lead + ch, lead + ch + lead, lead + ch + ch} {
+					if oper.IsOp(n) && n != "." && n != "?" {
+						names = append(names, n)
+					}
+				}
+				if len(names) == 0 {
+					continue
+				}
+				w := newC09Worker(opSet{"operator-alphabet " + strings.Join(names, " "), mkOps(names...)})
+				for _, n := range names {
+					for _, in := range []string{"a" + n + "b", "a " + n + " b", "x" + n + n + "y", n, "a" + n, n + "b", "a" + lead + "b" + n + "c", "é" + n + "é"} {
+						w.check(in, c)
+					}
+				}
+				// the same characters with nothing registered
+				w0 := newC09Worker(opSet{"operator-alphabet none", mkOps("+")})
+				w0.check("a"+lead+ch+"b", c)
+				w0.check("a "+lead+ch+" b", c)
+			}
+		}))
+	}
+
 	// random part
 	const parts = 16
 	mergeCounts(counts, parallel(r, distinct, len(sets)*parts, func(i int, c *chunk) {
